@@ -112,7 +112,7 @@ pub struct World {
     pub variant: Variant,
     pub nkeys: u64,
     /// keys of filtered keyspaces observed in filtered form: (name, key) -> true
-    pub seen_filtered: BTreeMap<(String, u64), bool>,
+    pub seen_filtered: BTreeMap<(String, u64), (bool, u64)>,
 }
 
 pub fn open_db(dir: &Path, variant: &Variant, conc: &Concretizer) -> fjall::Result<Database> {
@@ -842,7 +842,9 @@ pub fn compare(w: &mut World, st: &Value, act: &Value, deep: bool) -> Diff {
                 let want = refv[i];
                 if filtered && !tainted {
                     let ff = filtered_form(key, want);
-                    let seen = w.seen_filtered.get(&(name.clone(), key)).copied().unwrap_or(false);
+                    // (a write to the key since the observation resets stickiness: the reference
+                    // value changed)
+                    let seen = w.seen_filtered.get(&(name.clone(), key)).map_or(false, |(s, at)| *s && *at == want);
                     // a write to this key resets stickiness
                     let ok = got == want || got == ff;
                     if !ok {
@@ -850,9 +852,18 @@ pub fn compare(w: &mut World, st: &Value, act: &Value, deep: bool) -> Diff {
                             "{name} key {key} {what} = {got}, allowed original {want} or filtered form {ff}"
                         ));
                     } else if seen && got != ff {
-                        d.violations.push(format!(
-                            "{name} key {key} {what}: observed filtered earlier, now back to original {got}"
-                        ));
+                        // known finding D24: the model (mechanistic) predicts the replay of the
+                        // journal record of an item the filter had removed
+                        let kf24 = st["kf"].as_array().map_or(false, |a| a.iter().any(|x| x == "D24"));
+                        if kf24 && ff == 0 && got == exp {
+                            d.known.push(format!(
+                                "D24 {name} key {key} {what}: removed by the compaction filter earlier, back in original form {got} after reopen (journal record above the tables' highest persisted seqno replayed)"
+                            ));
+                        } else {
+                            d.violations.push(format!(
+                                "{name} key {key} {what}: observed filtered earlier, now back to original {got}"
+                            ));
+                        }
                     } else if is_major && got != exp {
                         d.violations.push(format!(
                             "{name} key {key} {what} = {got} after major compaction, model {exp}"
@@ -896,7 +907,7 @@ pub fn compare(w: &mut World, st: &Value, act: &Value, deep: bool) -> Diff {
                 let want = refv[i];
                 let ff = filtered_form(key, want);
                 let now_filtered = want != ff && r.scan[i] == ff && r.point[i] == ff;
-                w.seen_filtered.insert((name.clone(), key), now_filtered);
+                w.seen_filtered.insert((name.clone(), key), (now_filtered, want));
             }
         }
         let sealed = k.sealed_memtable_count() as u64;
